@@ -24,6 +24,7 @@ def pool(chk, mdl):
     # reverse, and three in a row): aimed at the scan of the mask query and at the engine's "i += 2" / last-two-characters boundary
     norm = ["%2F", "%20", "%25", "%3A"]; work = ["%7e", "%41", "%2e", "%5d", "%2f"]
     pairs = [a + b for a in norm for b in work] + [b + a for a in norm[:2] for b in work[:3]] + [a + a2 + b for a in norm[:2] for a2 in norm[1:3] for b in work[:2]] + ["x" + norm[0] + work[0], norm[0] + work[0] + "x", norm[0] + "x" + work[0]]
+    pairs += [a + c for a in norm for c in ("B", "Bc", "bC")] + ["B" + a for a in norm[:2]] + [a + "B" + b for a in norm[:2] for b in work[:2]] + ["%E2%82%ACUro"]
     for g in pairs:
         texts += ["//h/" + g, "/" + g + "/b", g, "?" + g, "#" + g, "//" + g + "@h", "//a" + g + ".b/", "s://h/a?k=" + g + "#" + g]
     # relative references that start with an essential dot: "./b:c/../x", "./b:c/../../x", ...
@@ -63,7 +64,7 @@ def run(chk):
     reqs += req2; meta += meta2
     model += lib.run_lines(mdl, req2)
     flav = {"A": 1, "W": 1, "A_asan": 5, "W_asan": 7}
-    nontrivial = set(); corr = []; suspects = []; twice_suspects = []
+    nontrivial = set(); corr = []; suspects = []; twice_suspects = []; pending = []
     for fl, stride in flav.items():
         idx = [i for i in range(len(reqs)) if i % stride == 0]
         impl = lib.run_lines(exes[fl], [reqs[i] for i in idx])
@@ -103,6 +104,10 @@ def run(chk):
             # (c) the reported mask is sufficient; zero means already normal
             mreq = first["mask"]
             key = ("required", mreq)
+            if key not in row and ("mask", mreq) in row: key = ("mask", mreq)
+            if key not in row:
+                # the implementation reports another mask than the model: judge ITS answer (run below), not the model's
+                pending.append((t, owned, mreq, fl, full, row[("mask", 63)][3]))
             if key in row:
                 got = row[key][1]
                 if got["text"] != full["text"] or got["obj"].key() != full["obj"].key():
@@ -110,6 +115,18 @@ def run(chk):
                                   {"request": reqs[row[key][2]], "uri": t, "build": fl, "impl": row[key][3], "full": row[("mask", 63)][3]})
             if mreq == 0 and full["text"] != first["text"]:
                 chk.violation("mask query says 0 but full normalization changes the URI", {"uri": t, "build": fl, "request": reqs[row[("mask", 63)][2]], "impl": row[("mask", 63)][3]})
+    for fl in flav:
+        mine = [p_ for p_ in pending if p_[3] == fl]
+        if not mine: continue
+        prq = [H([('p', 0, t)] + ([('o', 0)] if owned else []) + [('n', 0, mreq)]) for (t, owned, mreq, _, _, _) in mine]
+        pres = lib.run_lines(exes[fl], prq)
+        chk.cov["evaluations"] += len(prq)
+        for (t, owned, mreq, _, full, fullo), rq, o in zip(mine, prq, pres):
+            steps, end = uris.parse_hist(o)
+            got = steps[-1] if steps else None
+            if not got or got.get("rc") != 0 or got["text"] != full["text"] or got["obj"].key() != full["obj"].key():
+                chk.violation("normalizing with the mask reported by the query (%d) differs from full normalization" % mreq,
+                              {"request": rq, "uri": t, "build": fl, "impl": o, "full": fullo})
     shp = lib.run_lines(mdl, ["shape_c08 %s %s %s" % (enc_s(t), sp, got) for (t, fl, o, got, sp, i) in suspects])
     for (t, fl, o, got, sp, i), sh in zip(suspects, shp):
         name = SHAPES.get(sh)
